@@ -1,5 +1,7 @@
 import AlatorVerif.Lemmas.HttpThm
 import AlatorVerif.Lemmas.HttpClient
+import AlatorVerif.Lemmas.HttpClientHist
+import AlatorVerif.Lemmas.HttpClientHistJ
 /-!
 # C20 — the JSON server is a faithful transport for the in-process exchange (Uist and Jura)
 
@@ -78,6 +80,26 @@ theorem jura_decoded_tick {β : Type} [LE β] [DecidableLE β] [Add β] [Sub β]
           (x.1, x.2.1.map (fun f => (toString f.coin, f.oid, f.px, f.buy, f.sz, f.time)), x.2.2.1, x.2.2.2.1)) :=
   client_tick_jura syms a id adm
 
+/-- **every request sequence, on the client's side of the wire** (Uist service): along any sequence of init,
+    tick, insert_order, delete_order, fetch_quotes, info and now requests — none of whose `init`s names an empty
+    dataset — the typed results a client decodes from the JSON responses are, one by one, the results of the
+    same calls made in-process (ids, `has_next`, trades and inserted orders in order, the quotes of the current
+    date symbol by symbol, the clock, success / unknown-backtest), and they are the decodings of exactly the
+    response list of `same_states_as_in_process` -/
+theorem client_sees_in_process_results_along_every_sequence {β : Type} [LE β] [DecidableLE β] [Mul β]
+    (syms : String → List String) (rs : List (UReq β)) (a : UAppS β) (hp : NoInitPanic a rs) :
+    List.zipWith httpView rs (hrun uistOps uistEnc syms a rs).1 = procViews syms a rs :=
+  (httpViews_eq_hrun syms rs a).symm.trans (client_history syms rs a hp)
+
+/-- the same for the **Jura service** (init, tick with fills / inserted orders / triggered child ids, insert_order,
+    delete_order, fetch_quotes, info; the service has no `now` route, which both sides of the statement show as
+    "no such route") -/
+theorem jura_client_sees_in_process_results_along_every_sequence {β : Type} [LE β] [DecidableLE β] [Add β] [Sub β] [Mul β]
+    [OfNat β 1] [OfScientific β] (syms : String → List String) (rs : List (JReq β)) (a : JAppS β)
+    (hp : NoInitPanicJ a rs) :
+    List.zipWith httpViewJ rs (hrun juraOps (juraEnc true) syms a rs).1 = procViewsJ syms a rs :=
+  client_history_jura syms rs a hp
+
 /-- with the repaired wire format every component of a Jura tick result is on the wire (the pinned
     `TickResponse` had no field for the ids of triggered children, F9) -/
 theorem jura_tick_fields (r : JR α) :
@@ -95,5 +117,20 @@ theorem round_trips :
     (∀ o : PJ.Order α, decJOrd (encJOrd o) = some o) ∧
     (∀ f : PJ.Fill α, decFill (encFill f) = some (toString f.coin, f.oid, f.px, f.buy, f.sz, f.time)) :=
   ⟨decOrd_encOrd, decTrade_encTrade, decQuote_encQuote, decJOrd_encJOrd, decFill_encFill⟩
+
+/-! non-vacuity of the history theorems: a server holding a two-date dataset, and a request sequence with a creation, an
+    order, ticks, reads and a request to an unknown backtest; no `init` names an empty dataset -/
+section
+def exDsU : Dataset (UQ String Rat) :=
+  { dates := [10, 20], quotes := fun d => if d = 10 ∨ d = 20 then some (fun s => if s = "ABC" then some ⟨100, 101, d⟩ else none) else none }
+def exAppU : UAppS Rat :=
+  { backtests := fun _ => none, last := 0, datasets := fun n => if n = "D" then some exDsU else none }
+def exReqs : List (UReq Rat) :=
+  [.init "D", .insert 1 ⟨none, .market, .buy, "ABC", 5, none⟩, .tick 1 [⟨none, .market, .buy, "ABC", 5, none⟩], .fetch 1, .now 1,
+   .tick 1 [], .info 7, .init "nope"]
+
+example : NoInitPanic exAppU exReqs := by
+  simp [NoInitPanic, exReqs, exAppU, exDsU, step, toOp, SV.init, SV.insert, SV.tick, setBt, uistOps, Variant.repaired]
+end
 
 end C20
